@@ -13,7 +13,7 @@ ENGINE_ASSUME = [
 ]
 
 
-def engine_parts(cancel=False):
+def engine_parts(cancel=False, rendezvous=False):
     parts = [
         {"name": "exhaustive", "test": "TestExhaustive", "kind": "plain", "n": {Q: 3, T: 4},
          "shards": {Q: 8, T: 16}, "timeout": {Q: 400, T: 2400}},
@@ -25,6 +25,9 @@ def engine_parts(cancel=False):
                       "timeout": {Q: 400, T: 2400}, "shrinktime": "25s"})
         parts.append({"name": "realrunner", "pkg": "c12", "test": "TestCancel", "checks": {Q: 48, T: 800}, "shards": {Q: 8, T: 16},
                       "timeout": {Q: 500, T: 2400}, "shrinktime": "60s"})
+    if rendezvous:
+        parts.append({"name": "rendezvous", "pkg": "c04r", "test": "TestRendezvous", "checks": {Q: 320, T: 4800}, "shards": {Q: 8, T: 16},
+                      "timeout": {Q: 500, T: 3000}, "shrinktime": "40s"})
     return parts
 
 
@@ -74,15 +77,19 @@ PROPS = {
         "assumptions": ENGINE_ASSUME, "parts": engine_parts(cancel=True),
     },
     "C04": {
-        "pkg": "c01", "bin": False,
+        "pkg": "c01", "bin": True,
         "technique": "model-based stateful PBT: the property never releases a run until the set blocked inside the controlled Runner "
                      "equals the model's eligible set",
         "level_text": "At every quiescent point of every explored schedule the set of tasks simultaneously inside Runner.Run must equal "
                       "the model's eligible set; since nothing is released before that holds, a scheduler that serialises "
-                      "independent stages can never get there and hits the liveness bound.",
+                      "independent stages can never get there and hits the liveness bound. Part rendezvous does the same at system "
+                      "level (real runner, binary): stages of one layer each wait for all others of the layer to be running.",
         "level_note": "Bounded liveness (4 s, retried once with 20 s); trusts the reference model's eligibility rule.",
-        "rule": ENGINE_RULE + "Non-trivial for C04 = the expected in-flight set had size >= 2 at some point; distinct = canonical JSON.",
-        "assumptions": ENGINE_ASSUME, "parts": engine_parts(),
+        "rule": ENGINE_RULE + "rendezvous: rapid layered pipelines (1..3 layers x 2..4 stages; task names that collide once "
+                "normalised, one task in several concurrent stages, shared exportAs, allowed failures) run by the real runner through "
+                "the binary: every stage waits until all stages of its layer are running. Non-trivial for C04 = the expected in-flight "
+                "set had size >= 2 at some point (every rendezvous case); distinct = canonical JSON.",
+        "assumptions": ENGINE_ASSUME, "parts": engine_parts(rendezvous=True),
     },
     "C05": {
         "pkg": "c05", "bin": True,
@@ -165,6 +172,7 @@ PROPS = {
         "assumptions": ["stage identity is carried by a stage-private variable stage_id"],
         "parts": [
             {"name": "api", "test": "TestAPI", "checks": {Q: 3000, T: 60000}, "shards": {Q: 6, T: 16}, "timeout": {Q: 400, T: 2400}},
+            {"name": "real", "test": "TestReal", "checks": {Q: 800, T: 16000}, "shards": {Q: 8, T: 16}, "timeout": {Q: 400, T: 2400}},
             {"name": "cli", "test": "TestCLI", "checks": {Q: 160, T: 4000}, "shards": {Q: 8, T: 16}, "timeout": {Q: 400, T: 2400}},
         ],
     },
